@@ -33,6 +33,7 @@ func checkC03(c *Ctx) {
 	c03Bind(c)
 	c03Cur(c)
 	c03Let(c)
+	c.checkLexicalFunc("C03-LEXFN")
 	// the generator's scope counter equals the scopes open at run time wherever a sub-form is compiled:
 	// otherwise a tail call or break leaves a stale function or let scope on the live stack, and the
 	// caller then resolves names in the callee's scopes
@@ -135,6 +136,41 @@ func c03Let(c *Ctx) {
 		c.check(sh.parallel && !sh.sequential, R, "Generator.GenerateLet", "let binds in parallel", sh.t.seq[0].pos,
 			"for let: every right-hand side is compiled, then every name is bound",
 			"the emission sequence selected for `let` binds a name before all right-hand sides are evaluated: "+seqString(sh.t.seq))
+	}
+	// ---- C03-LETSCOPE: a closure written in a binding expression of `let` is textually outside the scope of the
+	// let's names; if the let's scope is already open when the right-hand sides run, that closure captures it and
+	// later sees the let's variables
+	doneScope := false
+	for _, sh := range letShapes {
+		if !sh.parallel || doneScope {
+			continue
+		}
+		opened, rhsInside := false, false
+		var at *atom
+		for _, a := range sh.t.seq {
+			if a.kind == "AddScopeInstr" {
+				opened = true
+			}
+			if a.kind == "Rep" && len(a.alts) == 1 {
+				onlySeg := len(a.alts[0]) > 0
+				for _, x := range a.alts[0] {
+					if x.kind != "Seg" {
+						onlySeg = false
+					}
+				}
+				if onlySeg && opened {
+					rhsInside, at = true, a
+				}
+			}
+		}
+		doneScope = true
+		p := sh.t.seq[0].pos
+		if at != nil {
+			p = at.pos
+		}
+		c.check(!rhsInside, "C03-LETSCOPE", "Generator.GenerateLet", "let: binding expressions evaluated outside the new scope", p,
+			"the right-hand sides of let are compiled before the let's scope is opened",
+			"the let's scope is opened before its right-hand sides are evaluated: a closure written in a binding expression captures the let's own scope and later sees the let's variables, although textually it is outside their scope; a def inside a binding expression lands in the let's scope")
 	}
 	for _, sh := range seqShapes {
 		c.check(sh.sequential && !sh.parallel, R, "Generator.GenerateLet", "letseq binds one by one", sh.t.seq[0].pos,
@@ -911,6 +947,19 @@ func c03Fresh(c *Ctx) {
 			if a.kind == opener {
 				opened = true
 			}
+			if t.fn == "Generator.GenerateLet" && a.kind == "Rep" && len(a.alts) == 1 {
+				// the right-hand sides of let may be evaluated on either side of the scope
+				// opening (C03-LETSCOPE decides which is right); binding and body may not
+				binds := false
+				for _, x := range a.alts[0] {
+					if x.kind == "PopStackPutEnvInstr" {
+						binds = true
+					}
+				}
+				if !binds {
+					continue
+				}
+			}
 			if (a.kind == "Seg" || a.kind == "Rep") && !opened {
 				okOrder = false
 				if at == nil {
@@ -1115,4 +1164,71 @@ func blkPos(b *ssa.BasicBlock) token.Pos {
 		}
 	}
 	return b.Parent().Pos()
+}
+
+// checkLexicalFunc: while a Go builtin runs, env.curfunc is the builtin, which
+// has captured nothing and belongs to no package. A symbol a builtin resolves
+// for its caller (a dot-symbol operand such as h.x, defined?, =) must be looked
+// up in the captured scopes of the compiled function that called the builtin.
+// The rule: in LexicalLookupSymbol, the function whose captured scopes are
+// searched is never env.curfunc read directly; it comes from a routine that
+// tests whether the current function is a Go builtin (.user) and, if so, takes
+// the function recorded on the address stack.
+func (c *Ctx) checkLexicalFunc(rule string) {
+	look := c.mustFn(rule, "Zlisp.LexicalLookupSymbol")
+	cur := c.mustField(rule, "Zlisp", "curfunc")
+	user := c.mustField(rule, "SexpFunction", "user")
+	addr := c.mustField(rule, "Zlisp", "addrstack")
+	sfn := c.named("SexpFunction")
+	if look == nil || cur == nil || user == nil || addr == nil || sfn == nil {
+		return
+	}
+	skipsBuiltins := func(g *ssa.Function) bool {
+		if g == nil {
+			return false
+		}
+		readsUser, readsAddr := false, false
+		eachInstr(g, func(b *ssa.BasicBlock, i int, in ssa.Instruction) {
+			if fa, ok := in.(*ssa.FieldAddr); ok {
+				if faField(fa) == user {
+					readsUser = true
+				}
+				if faField(fa) == addr {
+					readsAddr = true
+				}
+			}
+		})
+		return readsUser && readsAddr
+	}
+	n := 0
+	eachInstr(look, func(b *ssa.BasicBlock, i int, in ssa.Instruction) {
+		call, ok := in.(*ssa.Call)
+		if !ok {
+			return
+		}
+		g := call.Call.StaticCallee()
+		if g == nil || !isMethodOf(g, sfn) || len(call.Call.Args) == 0 {
+			return
+		}
+		n++
+		recv := call.Call.Args[0]
+		construct := "captured scopes searched by " + g.Name()
+		if _, direct := loadOfField(recv, cur); direct {
+			c.bad(rule, "Zlisp.LexicalLookupSymbol", construct, call.Pos(),
+				"the captured scopes searched are those of env.curfunc, which is the Go builtin while a builtin resolves a symbol for its caller: a dot-symbol operand (h.x) inside a closure or a package function is looked up without the variables the closure captured and without the package's members; it reads or writes a global of the same name, or fails")
+			return
+		}
+		var src *ssa.Function
+		for _, leaf := range phiLeaves(recv) {
+			if cl, ok := leaf.(*ssa.Call); ok {
+				src = cl.Call.StaticCallee()
+			}
+		}
+		c.check(skipsBuiltins(src), rule, "Zlisp.LexicalLookupSymbol", construct, call.Pos(),
+			"the function whose captured scopes are searched comes from a routine that steps over Go builtins to the calling compiled function",
+			"the function whose captured scopes are searched does not come from a routine that tests for a Go builtin (.user) and consults the address stack")
+	})
+	if n == 0 {
+		c.undecided(rule, "Zlisp.LexicalLookupSymbol", "captured scopes", look.Pos(), "no look-up in captured scopes found")
+	}
 }
